@@ -2,6 +2,7 @@ SPECIFICATION TraceSpec
 CONSTANT Relax = {}
 INVARIANT TypeOK
 INVARIANT JusticeCovers
+INVARIANT JusticeCadence
 INVARIANT CheaterKeepsNothing
 INVARIANT NoEntitledOutputIdle
 INVARIANT RebroadcastCovers
